@@ -93,10 +93,9 @@ def bfs(fst, src0, depth, alphas, part, res, on_state, on_raise=None, kind='exec
                     res.outcomes['ok'] += 1
                     expand = on_state(root, cur, hist2, cid, c2) is not False
                 else:
-                    try:
-                        ast.parse(c2[2])
-                    except (SyntaxError, ValueError):
-                        expand = False  # a state that already failed the invariant is reported once and not expanded
+                    from .fstnav import live_vs_parse
+                    if live_vs_parse(root, 'Module' if kind == 'exec' else None):
+                        expand = False  # a state that already failed C01 is reported once (by the counting shard) and not expanded
                 if not expand:
                     continue
                 if hh not in seen:
